@@ -9,6 +9,10 @@ CHECKS = {
    text="runtime monitor on the real binary's console port: data seeded in 4 namespaces with unique markers; restricted users for whitelist {all, none, A, AB, default} x blacklist {all, none, A, B} (+ disabled groups via transfer import) x roles; 65 endpoint operations of both console API versions x namespace spellings x paged walks; for a disallowed namespace the response must be a refusal, no marker may leak and the admin-read fingerprint must be unchanged; positive controls on allowed namespaces",
    note="endpoints without a working positive control are listed, not counted; subscriber listings and transfer import are not swept",
    technique="runtime black-box monitoring of the real server (marker leak detection + state fingerprint + positive controls)"),
+ "C19": dict(level="exploration", design="DESIGN.md 3/C19",
+   text="runtime monitor of issued ids on a complete in-process node: concurrent GetNextId bursts on 3 keys (interleaving inside the actor while ranges are fetched through raft), raw SequenceRaftReq::NextId writes and leader-path publishes (history ids), with compactions by the raft core and restarts by SIGKILL at quiescent points, right after an answer and in the middle of a burst, optionally drawing again before recovery finished; oracle over the recorded id log: no id twice per key, ids answered before a request was made are smaller, final history ids unique across keys",
+   note="single node (multi-node draws ride on the cluster rig); gaps allowed; ids of requests in flight at a kill are never observed; violations are classified by the restart class between the two draws",
+   technique="runtime monitoring of a recorded id log (uniqueness / monotonicity oracle) under crash-restart and concurrency stress"),
  "C20": dict(level="exploration", design="DESIGN.md 3/C20",
    text="differential runtime monitor: the repository's stream readers are run on ~10^6 (quick) / ~10^7 (thorough) seeded record streams x chunk partitions and compared with an independent reference decoder; short streams get every 2-chunk (tiny ones every 3-chunk) partition",
    note="sampled input space (exhaustive only where stated); trusts the 30-line reference decoder in harness/src/c20.rs",
